@@ -300,6 +300,7 @@ class DescriptorTransaction(_TransactionBase):
         """
         proc = TransactionResult()
         if self.descriptor_updates:
+            self._check_before_commit()
             self._mdib.mdib_version = self.new_mdib_version
             # need to know all to be deleted and to be created descriptors
             to_be_deleted_handles = [tr_item.old.Handle for tr_item in self.descriptor_updates.values()
@@ -367,6 +368,18 @@ class DescriptorTransaction(_TransactionBase):
                 updates = self._handle_state_updates(updates_dict)
                 dest_list.extend(updates)
         return proc
+
+    def _check_before_commit(self):
+        """Raise before the first table is changed, if the transaction cannot be applied completely."""
+        for handle, tr_item in self.descriptor_updates.items():
+            if tr_item.new is not None and tr_item.new.Handle != handle:
+                msg = f'Handle of descriptor {handle} was changed to {tr_item.new.Handle}!'
+                raise ValueError(msg)
+        for handle, tr_item in self.context_state_updates.items():
+            if (tr_item.old is None and tr_item.new is not None
+                    and self._mdib.context_states.handle.get_one(handle, allow_none=True) is not None):
+                msg = f'Cannot add context state {handle}, the handle already exists in mdib!'
+                raise ValueError(msg)
 
     def _update_corresponding_state(self, descriptor_container: AbstractDescriptorProtocol):
         updates_dict = self._get_states_update(descriptor_container)
